@@ -3,6 +3,7 @@ package cli
 import (
 	"fmt"
 	"sort"
+	"strconv"
 	"strings"
 	"testing"
 
@@ -25,6 +26,12 @@ type C17Case struct {
 	// Seps: the blanks written in front of each word after the program name (earlier words, then the last
 	// word); missing = one blank. COMP_LINE is the text the user typed: runs of blanks and tabs separate words.
 	Seps []string `json:"seps,omitempty"`
+	// OpenEnd: len(Earlier) right after an option was written that can still take the next word as a value
+	// (a multi-valued option below its maximum, an optional-value option without value). When it equals
+	// len(Earlier) the last word stands in a value position: the statement fixes no candidate set there, only
+	// that whatever is offered is accepted by the parser at that position.
+	OpenEnd  int    `json:"open_end,omitempty"`
+	OpenElem string `json:"open_elem,omitempty"` // element type of that option: s i f m
 }
 
 var c17Values = []string{"dev", "development", "prod", "production", "staging", "debug", "info", "infinity", "error", "a=b", "x", "tok="}
@@ -102,10 +109,23 @@ func genC17(t *rapid.T) C17Case {
 				if len(o.Valid) > 0 {
 					v = o.Valid[0]
 				}
-				if o.Kind.IsScalar() && !o.Kind.IsOptional() && rapid.IntRange(0, 2).Draw(t, "edetached") == 0 {
+				if o.Kind.IsOptional() && rapid.IntRange(0, 3).Draw(t, "eoptnovalue") == 0 {
+					c.Earlier = append(c.Earlier, "--"+k) // the next word may be its value
+					c.OpenEnd, c.OpenElem = len(c.Earlier), string(o.Kind.Elem())
+				} else if o.Kind.IsScalar() && !o.Kind.IsOptional() && rapid.IntRange(0, 2).Draw(t, "edetached") == 0 {
 					c.Earlier = append(c.Earlier, "--"+k, v) // value as the next word
 				} else {
 					c.Earlier = append(c.Earlier, "--"+k+"="+v)
+				}
+			case o.Kind.IsMulti() && o.Max > 1:
+				// the mandatory values are given, room for more is left
+				v := map[byte]string{'s': "word", 'i': "7", 'f': "1.5", 'm': "k=v"}[o.Kind.Elem()]
+				c.Earlier = append(c.Earlier, "--"+k)
+				for j := 0; j < o.Min; j++ {
+					c.Earlier = append(c.Earlier, v)
+				}
+				if o.Min < o.Max {
+					c.OpenEnd, c.OpenElem = len(c.Earlier), string(o.Kind.Elem())
 				}
 			}
 		case 3:
@@ -129,6 +149,15 @@ func genC17(t *rapid.T) C17Case {
 			i--
 		}
 		return s[:i]
+	}
+	if c.OpenEnd > 0 && c.OpenEnd == len(c.Earlier) && len(lv.ChildSeq) > 0 && rapid.IntRange(0, 3).Draw(t, "valuepos") > 0 {
+		// the last word stands where the option before it can still take a value: type the start of a command name
+		c.Class = "value-position"
+		name := rapid.SampledFrom(lv.ChildSeq).Draw(t, "vpcmd")
+		c.Last = cut(name, "vpcut")
+		if c.Last == "" {
+			c.Last = name
+		}
 	}
 	switch c.Class {
 	case "empty":
@@ -233,8 +262,30 @@ func checkC17(c C17Case, st *evid.Stats) error {
 		st.Exclude("earlier words do not parse: " + strings.Join(m.Causes, "+"))
 		return nil
 	}
+	valuePos := c.OpenEnd > 0 && c.OpenEnd == len(c.Earlier)
+	if valuePos {
+		// Only a typed word that the open option takes as a value makes this a value position for certain
+		// (C02: not option-looking and well-formed for the element type). Otherwise the typed word is a
+		// positional while one of its completions may be a value (a command called "1" after an int list):
+		// the clauses of the statement contradict each other there and nothing is judged.
+		takes := !strings.HasPrefix(c.Last, "-")
+		switch c.OpenElem {
+		case "i":
+			_, err := strconv.Atoi(c.Last)
+			takes = takes && err == nil
+		case "f":
+			_, err := strconv.ParseFloat(c.Last, 64)
+			takes = takes && err == nil
+		case "m":
+			takes = takes && strings.Contains(c.Last, "=")
+		}
+		if !takes {
+			st.Exclude("open-ended option followed by a partial word it would not take as a value")
+			return nil
+		}
+	}
 	if m.Decisions > 0 {
-		st.Exclude("earlier words end in / contain an option that could still take a value")
+		st.Exclude("earlier words contain an option that could still take a value, followed by further words")
 		return nil
 	}
 	root := c.Spec.Levels()
@@ -292,10 +343,40 @@ func checkC17(c C17Case, st *evid.Stats) error {
 	if co.Invocations != 0 {
 		return failf("a command function ran during completion; %s", ctx)
 	}
-	if co.Writer != "" {
+	if co.Writer != "" && !valuePos {
+		// (in a value position the partial word may be rejected as a value of the option before it - e.g. ""
+		// for an int - and the library reports that on Writer before leaving through the exit path)
 		return failf("completion wrote an error: %q; %s", co.Writer, ctx)
 	}
 	lines := co.Lines
+	if valuePos {
+		// The last word may be taken as a value of the option before it. No candidate set is asserted; but an
+		// offered subcommand must be accepted as that command when written at this position.
+		st.Class("last word in a value position (only the parser cross-check is asserted)")
+		for _, ln := range lines {
+			n := strings.TrimSuffix(ln, " ")
+			ch, ok := L.Children[n]
+			if !ok || ch.IsHelpCmd || ch.Spec.NoFn {
+				continue
+			}
+			ps := *c.Spec
+			ps.UnknownMode = UnkPass
+			out := Run(&ps, append(append([]string{}, c.Earlier...), n), RunOpts{Dispatch: true})
+			if out.ParseFailed {
+				continue
+			}
+			if st.NT(fmt.Sprintf("vp|%v|%s|%v", c.Earlier, n, c.Zsh)) {
+				st.Sample(map[string]interface{}{"comp_line": compLine, "shell": shell, "level": L.Path, "offered": lines})
+			}
+			if len(out.Inv) == 1 && out.Inv[0].Path != ch.Path {
+				return failf("offered command %q is not accepted as a command at that position: %q runs %s (the word is taken as an option value); %s", n, append(append([]string{}, c.Earlier...), n), out.Inv[0].Path, ctx)
+			}
+		}
+		if !sort.StringsAreSorted(lines) {
+			return failf("completion candidates are not sorted: %s; %s", q(lines), ctx)
+		}
+		return nil
+	}
 	st.Class("last:" + c.Class)
 	depth := strings.Count(L.Path, "/")
 	var want []string
